@@ -1,6 +1,7 @@
 """C05 — Primitive values map to valid XSD lexical forms and back."""
 import base64 as _b64
 import itertools
+import json
 import math
 import re
 from decimal import Decimal
@@ -655,7 +656,7 @@ def gen_de_all(rng, tier):
     for s in exhaustive("01.-e_ ", 4):
         for t in ("int", "float", "Decimal"):
             yield de_case(s, [t])
-    for s in exhaustive("+9E.N", 3 if quick else 40):
+    for s in exhaustive("+9E.N", 3 if quick else 5):
         for t in ("int", "float", "Decimal"):
             yield de_case(s, [t])
     for s in exhaustive("INFinfaAty", 3):
@@ -675,13 +676,13 @@ def gen_de_all(rng, tier):
         yield de_case(s, ["bytes"], KW(format="base64"))
         yield de_case(s, ["bytes"], KW(format=None))
         yield de_case(s, ["bytes"], KW(format="base32"))
-    for s in exhaustive("AQ/=w", 5 if quick else 60):
+    for s in exhaustive("AQ/=w", 5 if quick else 7):
         yield de_case(s, ["bytes"], KW(format="base64"))
     for s in exhaustive("Q= *", 4):
         yield de_case(s, ["bytes"], KW(format="base64"))
     for s in exhaustive("0aF g", 4):
         yield de_case(s, ["bytes"], KW(format="base16"))
-    for _ in range(300 if quick else 50000):
+    for _ in range(300 if quick else 4500):
         b = rand_bytes(rng)
         fmt = rng.choice(["base16", "base64"])
         s = ser_plain(b, KW(format=fmt))
@@ -701,14 +702,14 @@ def gen_de_all(rng, tier):
             yield de_case(s, ["QName"], KW(ns_map=m))
     for s in exhaustive("a:{}u 1", 4):
         yield de_case(s, ["QName"], KW(ns_map=[["u", "urn:u"], [None, "urn:d"]]))
-    for _ in range(300 if quick else 50000):
+    for _ in range(300 if quick else 4500):
         m = rng.choice(NS_MAPS)
         s = rng.choice(QNAME_HAND)
         for _ in range(rng.choice([0, 1, 1, 2])):
             s = mutate(rng, s, "a:{}u -#./_é́१1\n")
         yield de_case(pad(rng, s), ["QName"], KW(ns_map=m))
     # random valid values, serialised by the real code, optionally padded / mutated
-    for _ in range(1500 if quick else 300000):
+    for _ in range(1500 if quick else 22500):
         t = rng.choice(ATOM_TYPES)
         v = rand_atom(rng, t)
         kw = KW(format=rng.choice(["base16", "base64"])) if t == "bytes" else KW(ns_map=rng.choice(NS_MAPS)) if t == "QName" else KW()
@@ -730,7 +731,7 @@ def gen_de_all(rng, tier):
             for s in pool:
                 yield de_case(s, list(perm), KW(format="base16", ns_map=[["xs", "http://www.w3.org/2001/XMLSchema"]]))
                 yield {**de_case(s, list(perm), KW(format="base16", ns_map=[["xs", "http://www.w3.org/2001/XMLSchema"]])), "sort": True}
-    for _ in range(400 if quick else 80000):
+    for _ in range(400 if quick else 6000):
         k = rng.randint(0, 5)
         types = [rng.choice(ATOM_TYPES + ["unregistered"]) for _ in range(k)]
         if rng.random() < 0.3:
@@ -748,9 +749,9 @@ def gen_de_all(rng, tier):
         for s in ENUM_CTX_STRINGS:
             for kw in ENUM_CTX_KWS:
                 yield de_case(s, [{"enum": members}], kw)
-    for _ in range(100 if quick else 20000):
+    for _ in range(100 if quick else 1500):
         yield de_case(pad(rng, rng.choice(ENUM_CTX_STRINGS)), [{"enum": rng.choice(ENUM_SETS_CTX)}], rng.choice(ENUM_CTX_KWS))
-    for _ in range(400 if quick else 80000):
+    for _ in range(400 if quick else 6000):
         members = rand_enum(rng)
         if members is None:
             continue
@@ -834,7 +835,7 @@ def gen_ser(rng, tier):
     for members in ENUM_SETS:
         for m in members:
             yield {"v": {"t": "member", "v": m}, "kw": KW(format="base16", ns_map=[["u", "urn:u"]])}
-    for _ in range(1500 if quick else 300000):
+    for _ in range(1500 if quick else 22500):
         t = rng.choice(ATOM_TYPES)
         v = rand_atom(rng, t)
         kw = KW(format=rng.choice([None, "base16", "base64"])) if t == "bytes" else KW(ns_map=rng.choice(NS_MAPS)) if t == "QName" else KW()
@@ -862,7 +863,7 @@ def gen_test_all(rng, tier):
         for t in ("int", "float", "Decimal", "bool", "str"):
             for strict in (True, False):
                 yield {**de_case(s, [t]), "strict": strict}
-    for _ in range(600 if quick else 100000):
+    for _ in range(600 if quick else 9000):
         t = rng.choice(["int", "float", "Decimal", "bool"])
         v = rand_atom(rng, t)
         s = ser_plain(v)
@@ -884,7 +885,7 @@ def gen_sort(rng, tier):
     for a, b in itertools.permutations(names, 2):
         yield {"names": [a, b]}
     yield {"names": []}
-    for _ in range(800 if tier == "quick" else 100000):
+    for _ in range(800 if tier == "quick" else 12000):
         k = rng.randint(2, 8)
         yield {"names": [rng.choice(names) for _ in range(k)]}
     for _ in range(100):
@@ -909,20 +910,31 @@ def gen_from_value(rng, tier):
         yield {"v": enc_atom(v)}
     for v in FLOAT_EDGE:
         yield {"v": enc_atom(v)}
-    for _ in range(600 if tier == "quick" else 100000):
+    for _ in range(600 if tier == "quick" else 9000):
         yield {"v": enc_atom(rand_atom(rng, rng.choice(["int", "float", "float", "bool", "Decimal", "bytes"])))}
 
 
 def gen_float_lit(rng, tier):
     for s in NUM_HAND:
         yield {"s": s}
-    for s in exhaustive("1.e-_ 0", 5 if tier == "quick" else 60):
+    for s in exhaustive("1.e-_ 0", 5 if tier == "quick" else 7):
         yield {"s": s}
-    for _ in range(800 if tier == "quick" else 200000):
+    for _ in range(800 if tier == "quick" else 12000):
         s = repr(rand_float(rng))
         for _ in range(rng.choice([0, 1, 1, 2])):
             s = mutate(rng, s, "0123456789+-.eE_ infa٣")
         yield {"s": pad(rng, s)}
+    # literals generated from the grammar float() accepts (so that accepted inputs are not a small minority)
+    for _ in range(12000 if tier == "quick" else 180000):
+        dig = lambda n: "_".join("".join(rng.choice("0123456789٣") for _ in range(rng.randint(1, 4))) for _ in range(n))  # noqa: E731
+        ip = dig(rng.randint(1, 3)) if rng.random() < 0.85 else ""
+        fp = dig(rng.randint(1, 2)) if rng.random() < 0.6 or not ip else ""
+        s = rng.choice(["", "", "+", "-"]) + ip + ("." + fp if fp or rng.random() < 0.2 else "")
+        if rng.random() < 0.5:
+            s += rng.choice("eE") + rng.choice(["", "+", "-"]) + dig(1)
+        if rng.random() < 0.05:
+            s = rng.choice(["inf", "-Infinity", "NAN", "+nan", "iNf"])
+        yield {"s": pad(rng, s) if rng.random() < 0.3 else s}
 
 
 def gen_split_qname(rng, tier):
@@ -946,7 +958,7 @@ def gen_is_ncname(rng, tier):
     alpha = "a_1-.: é́·٣²"
     for s in exhaustive(alpha, 3):
         yield {"s": s}
-    for _ in range(500 if tier == "quick" else 50000):
+    for _ in range(500 if tier == "quick" else 7500):
         yield {"s": "".join(chr(rng.choice([rng.randint(0, 0x250), rng.randint(0x300, 0x3ff), rng.randint(0x900, 0x97f), rng.randint(0x2000, 0x2200), rng.randint(0, 0x2FFFF)])) for _ in range(rng.randint(1, 3)))}
 
 
@@ -967,7 +979,7 @@ def gen_is_uri(rng, tier):
         yield {"s": s}
     for s in ["http://www.w3.org/2000/09/xmldsig#", "http://www.w3.org/1999/02/22-rdf-syntax-ns#", "a-b:c", "a+b-c.d:e", "-a:b", "a,b#c,d", "a#b,c-d", "a\\b", "a^b#c", "a#b^c", "a#b]c", "a#b\\c"]:
         yield {"s": s}
-    for _ in range(300 if tier == "quick" else 50000):
+    for _ in range(300 if tier == "quick" else 4500):
         n = rng.randint(1, 6)
         yield {"s": "".join(rng.choice(["a", "Z", "0", "-", ",", ".", "/", ":", "#", "%", "~", "\\", "^", "]", "_", " ", "\n", chr(rng.randint(0x80, 0x2FFF)), chr(rng.randint(0, 0x10FFFF))]) for _ in range(n)).encode("utf-8", "surrogatepass").decode("utf-8", "replace")}
 
@@ -1038,7 +1050,7 @@ def gen_de_round_d(rng, tier):
         for s in DT_HAND if (not quick or f in DT_FORMATS[:8] + DT_BAD_FORMATS[:4] + [None]) else DT_HAND[::5]:
             for t in PY_DT_TYPES:
                 yield de_case(s, [t], KW(format=f))
-    for _ in range(1200 if quick else 60000):
+    for _ in range(4000 if quick else 60000):
         t = rng.choice(PY_DT_TYPES)
         f = rand_dt_format(rng)
         v = rand_py_dt(rng, "datetime")
@@ -1047,12 +1059,12 @@ def gen_de_round_d(rng, tier):
         except Exception:  # noqa: BLE001
             s = rng.choice(DT_HAND)
         r = rng.random()
-        if r < 0.35:
+        if r < 0.2:
             for _ in range(rng.randint(1, 2)):
                 s = mutate(rng, s, "0123456789 -:T٣t.x/")
-        elif r < 0.45:
+        elif r < 0.3:
             s = s.replace("0", "", 1)
-        elif r < 0.5:
+        elif r < 0.35:
             s = pad(rng, s)
         types = [t] if rng.random() < 0.8 else [rng.choice(PY_DT_TYPES + ("int", "str", "XmlDate")) for _ in range(rng.randint(2, 3))]
         c = de_case(s, types, KW(format=f))
@@ -1096,7 +1108,7 @@ def gen_ser_round_d_all(rng, tier):
         for v in [_dt.date(999, 1, 2), _dt.date(1, 1, 1), _dt.date(2020, 2, 29), _dt.time(1, 2, 3, 4500), _dt.time(0, 0, 0), _dt.datetime(2000, 1, 2, 3, 4, 5, 6),
                   _dt.datetime(9999, 12, 31, 23, 59, 59, 999999), _dt.datetime(1000, 10, 10, 10, 10, 10, 100000)]:
             yield {"v": enc_atom(v), "kw": KW(format=f)}
-    for _ in range(600 if quick else 30000):
+    for _ in range(600 if quick else 9000):
         t = rng.choice(PY_DT_TYPES)
         yield {"v": enc_atom(rand_py_dt(rng, t)), "kw": KW(format=rand_dt_format(rng))}
     for s in ["P1D", "P2Y6M5DT12H35M30.5S", "-P1Y", "PT0.5S", "P١D"]:
@@ -1165,7 +1177,7 @@ def gen_float_repr(rng, tier):
               "9007199254740993.000000000000000000001", "0.1", "0.2", "0.3", "1e23", "8.41e21", "2.2250738585072011e-308", "2.2250738585072014e-308", "5e-324", "3e-324", "2e-324"]:
         yield {"s": s}
         yield {"s": "-" + s}
-    for _ in range(3000 if quick else 150000):
+    for _ in range(3000 if quick else 45000):
         r = rng.random()
         if r < 0.5:
             x = struct.unpack("<d", struct.pack("<Q", rng.getrandbits(64)))[0]
@@ -1257,25 +1269,61 @@ def classify_test(a, o):
     return f"{_tyname(a['types'][0]) if len(a['types']) == 1 else 'list'}:{'strict' if a['strict'] else 'lax'}->{o.get('ok')}"
 
 
+def classify_sort(a, o):
+    names = a["names"]
+    keys = [DOC_PRIORITY.index(n) + 1 if n in DOC_PRIORITY else 0 for n in names]
+    return f"n{min(len(names), 5)}:{'ties' if len(set(keys)) < len(keys) else 'distinct'}:{'sorted' if keys == sorted(keys) else 'unsorted'}" + (":object" if "object" in names else "")
+
+
+def classify_bool(a, o):
+    s = a.get("s")
+    kind = "none" if s is None else "empty" if s == "" else "ascii" if s.isascii() else "unicode"
+    return f"{kind}->{o.get('ok', o.get('err'))}"
+
+
+def classify_split_qname(a, o):
+    if "err" in o:
+        return "err"
+    return ("brace" if a["s"].startswith("{") else "plain") + "->" + ("ns" if o["ok"][0] is not None else "no-ns")
+
+
+def classify_text_split(a, o):
+    return ("sep" if a["sep"] in a["s"] else "nosep") + "->" + ("pair" if o["ok"][0] is not None else "single")
+
+
+def classify_strftime(a, o):
+    ds = dt_directives(a["fmt"])
+    return f"dirs{min(len(ds), 4)}" + (":Y<1000" if "Y" in ds and a["v"][0] < 1000 else "") + (":f" if "f" in ds else "")
+
+
+def classify_float_lit(a, o):
+    if "err" in o:
+        return "err"
+    r = o["ok"]
+    s = a["s"]
+    feat = ("us" if "_" in s else "") + ("exp" if "e" in s.lower() and r not in ("inf", "-inf", "nan") else "") + ("uni" if not s.isascii() else "") + ("ws" if s != s.strip() else "")
+    return ("special" if r in ("inf", "-inf", "nan") else "finite") + (":" + feat if feat else "")
+
+
 CORRS = [
     Corr("conv.de", gen_de, impl_de, nontrivial=lambda a, o: len(a["s"]) > 0 and len(a["types"]) > 0, classify=classify_de,
          describe="ConverterFactory.deserialize(str, types, format=, ns_map=) vs model"),
     Corr("conv.ser", gen_ser, impl_ser, classify=classify_ser, describe="ConverterFactory.serialize(value, format=, ns_map=) incl. the mutated ns_map"),
     Corr("conv.test", gen_test, impl_test, classify=classify_test, describe="ConverterFactory.test(str, types, strict)"),
-    Corr("conv.sort", gen_sort, impl_sort, nontrivial=lambda a, o: len(a["names"]) > 1, describe="ConverterFactory.sort_types"),
+    Corr("conv.sort", gen_sort, impl_sort, nontrivial=lambda a, o: len(a["names"]) > 1, classify=classify_sort, describe="ConverterFactory.sort_types"),
     Corr("conv.type_converter", gen_type_converter, impl_type_converter, compare=cmp_type_converter, describe="registry + MRO lookup on real classes"),
     Corr("conv.from_value", gen_from_value, impl_from_value, classify=lambda a, o: a["v"]["t"] + "->" + str(o.get("ok")), describe="DataType.from_value(value).code"),
-    Corr("conv.float_lit", gen_float_lit, impl_float_lit, compare=cmp_float_lit, nontrivial=lambda a, o: len(a["s"]) > 1,
+    Corr("conv.float_lit", gen_float_lit, impl_float_lit, compare=cmp_float_lit, classify=classify_float_lit, nontrivial=lambda a, o: len(a["s"]) > 1,
          describe="float(str) grammar: exact decimal read by the model, correctly rounded, vs repr(float(s))"),
     Corr("conv.float_repr", gen_float_repr, impl_float_repr, classify=classify_float_repr, nontrivial=lambda a, o: "ok" in o,
          describe="repr(float(s)) computed exactly in Lean (round-half-even to binary64, shortest repr) vs CPython"),
     Corr("conv.strptime", gen_strptime, impl_strptime, classify=classify_strptime, describe="datetime.strptime for numeric directives vs the regex-order matcher"),
-    Corr("conv.strftime", gen_strftime, impl_strftime, describe="strftime (glibc: %Y unpadded) for numeric directives"),
-    Corr("ns.split_qname", gen_split_qname, impl_split_qname, compare=cmp_split_qname),
+    Corr("conv.strftime", gen_strftime, impl_strftime, classify=classify_strftime, describe="strftime (glibc: %Y unpadded) for numeric directives"),
+    Corr("ns.split_qname", gen_split_qname, impl_split_qname, compare=cmp_split_qname, classify=classify_split_qname),
     Corr("ns.build_qname", gen_build_qname, impl_build_qname),
-    Corr("ns.is_ncname", gen_is_ncname, impl_is_ncname),
-    Corr("ns.is_uri", gen_is_uri, impl_is_uri),
-    Corr("text.split", gen_text_split, impl_text_split),
+    Corr("ns.is_ncname", gen_is_ncname, impl_is_ncname, classify=classify_bool),
+    Corr("ns.is_uri", gen_is_uri, impl_is_uri, classify=classify_bool),
+    Corr("text.split", gen_text_split, impl_text_split, classify=classify_text_split),
 ]
 
 # ---------------------------------------------------------------------------
@@ -1927,6 +1975,51 @@ def gen_o_helpers(rng, tier):
     yield from gen_split_qname(rng, "quick")
 
 
+def gen_history(rng, tier):
+    """sequences of calls on the same objects (same enum classes, same converter, same ns_map dicts)"""
+    n = 300 if tier == "quick" else 4500
+    for _ in range(n):
+        r = rng.random()
+        calls = []
+        if r < 0.4:
+            members = rng.choice(ENUM_SETS_CTX)
+            for _ in range(rng.randint(3, 7)):
+                calls.append({"op": "de", "s": rng.choice(ENUM_CTX_STRINGS), "types": [{"enum": members}], "kw": rng.choice(ENUM_CTX_KWS)})
+        elif r < 0.7:
+            members = rng.choice(ENUM_SETS)
+            for _ in range(rng.randint(3, 7)):
+                calls.append({"op": "de", "s": rng.choice(ENUM_STRINGS), "types": [{"enum": members}] + rng.choice([[], ["str"], ["int"]]),
+                              "kw": KW(format=rng.choice(["base16", "base64", None]), ns_map=rng.choice(NS_MAPS))})
+        else:
+            for _ in range(rng.randint(3, 7)):
+                k = rng.random()
+                if k < 0.4:
+                    calls.append({"op": "ser", "v": {"t": "qname", "v": rng.choice(QNAME_VALUES)}, "kw": KW(ns_map=rng.choice(NS_MAPS))})
+                elif k < 0.7:
+                    calls.append({"op": "de", "s": rng.choice(QNAME_HAND), "types": ["QName"], "kw": KW(ns_map=rng.choice(NS_MAPS))})
+                else:
+                    t = rng.choice(PY_DT_TYPES)
+                    calls.append({"op": "de", "s": rng.choice(DT_HAND), "types": [t], "kw": KW(format=rng.choice(DT_FORMATS))})
+        yield {"calls": calls}
+
+
+def _run_call(c):
+    if c["op"] == "de":
+        return impl_de({"s": c["s"], "types": c["types"], "kw": c["kw"]})
+    return impl_ser({"v": c["v"], "kw": c["kw"]})
+
+
+def oracle_history(a):
+    """a call's result does not depend on which calls were made before it on the same objects"""
+    calls = a["calls"]
+    first = [_run_call(c) for c in calls]
+    second = list(reversed([_run_call(c) for c in reversed(calls)]))
+    for c, x, y in zip(calls, first, second):
+        if x != y:
+            return f"call {json.dumps(c, ensure_ascii=False)[:200]} gave {x} in the sequence and {y} when the sequence was replayed backwards"
+    return None
+
+
 ORACLES = [
     Oracle("c05.roundtrip", gen_o_roundtrip, oracle_roundtrip, covered=covered_roundtrip, from_ops=("conv.ser",)),
     Oracle("c05.accepts", gen_o_accepts, oracle_accepts, covered=covered_accepts, from_ops=("conv.de", "conv.test"), adapt=adapt_accepts),
@@ -1935,6 +2028,7 @@ ORACLES = [
     Oracle("c05.from_value", gen_from_value, oracle_from_value, from_ops=("conv.from_value",)),
     Oracle("c05.registry", gen_type_converter, oracle_registry, from_ops=("conv.type_converter",)),
     Oracle("c05.is_uri", gen_is_uri, oracle_is_uri, from_ops=("ns.is_uri",)),
+    Oracle("c05.history", gen_history, oracle_history),
     Oracle("c05.helpers", gen_o_helpers, oracle_helpers, covered=covered_helpers, from_ops=("ns.is_ncname", "ns.split_qname")),
 ]
 
